@@ -218,7 +218,12 @@ class Sim(object):
         if ctx.recv_inf is not None and any(a is recv for a in args + list(kwargs.values())):
             return None
         ctx.pre = [(o, snap(o)) for o in ctx.reach]
-        ctx.clones = CLONE((recv, args, kwargs))
+        try:
+            ctx.clones = CLONE((recv, args, kwargs))
+        except Exception:
+            # arguments that cannot be cloned cannot be given to the solo twin: skip the call, count it
+            self.count('op_unclonable')
+            return None
         for o in ctx.reach:
             inf = self.pool.infoof(o)
             if inf is None:
